@@ -28,16 +28,31 @@ type cnStep struct {
 	Chans     []bool `json:"chans"` // closed?
 	Delivered int    `json:"delivered"`
 	Panic     bool   `json:"panic"`
-	Held      []bool `json:"held"` // "heof" only: the channels' state while the handler was still running
+	TClosed   bool   `json:"tclosed"` // the library has closed the transport
+	Hung      bool   `json:"hung"`    // a CloseNotify call did not return within 2 s
+	Held      []bool `json:"held"`    // "heof" only: the channels' state while the handler was still running
 }
 type cnCase struct {
 	Sched []string `json:"sched"`
+	Via   string   `json:"via"` // set when a recorded scenario is re-run: the same kind of connection
 }
 
 func installHook() {
 	diam.SetVerifHook(func(point string, obj interface{}, args ...interface{}) {
 		l := logFor(obj)
 		if l == nil {
+			return
+		}
+		if point == "finish.sr" {
+			// scheduler gate, not an event of the model: finish() holds the reader's lock and has not
+			// notified yet; whoever waits for the signal makes its request now
+			if l.exitCh != nil {
+				select {
+				case l.exitCh <- struct{}{}:
+				default:
+				}
+				time.Sleep(300 * time.Microsecond)
+			}
 			return
 		}
 		ev := cnEvent{Ev: point}
@@ -126,12 +141,12 @@ func cnBad() []byte {
 
 func runCN(id int, c *cnCase, via string) cnLine {
 	l := cnLine{Ev: "cn", ID: id, Via: via, Sched: c.Sched, Steps: []cnStep{}, InOrder: true, Events: []cnEvent{}, Conform: true}
-	lg := &evlog{}
+	lg := &evlog{exitCh: make(chan struct{}, 1)}
 	curLog.Store(lg)
 	defer curLog.Store((*evlog)(nil))
 	for _, ev := range c.Sched {
-		if ev == "mm" || ev == "m1" || ev == "m2" || ev == "xbig" {
-			l.Conform = false // the model's chunks are whole messages
+		if ev == "mm" || ev == "m1" || ev == "m2" || ev == "xbig" || ev == "eofd" {
+			l.Conform = false // the model's chunks are whole messages, and data never comes with the end of the stream
 		}
 
 	}
@@ -191,9 +206,13 @@ func runCN(id int, c *cnCase, via string) cnLine {
 		}
 	})
 	var ln *memnet.Listener
-	if via == "server" {
+	if via == "server" || via == "server+timeout" {
 		ln = memnet.NewListener()
 		srv := &diam.Server{Handler: mux, Dict: dict.Default}
+		if via == "server+timeout" {
+			srv.ReadTimeout = 300 * time.Millisecond
+			l.Conform = false // read deadlines are not in the model
+		}
 		go srv.Serve(ln)
 		ln.Push(mc)
 	} else {
@@ -205,6 +224,7 @@ func runCN(id int, c *cnCase, via string) cnLine {
 		}
 		dconn = dc
 	}
+	exitSeen := false
 	nextID := uint32(0)
 	wantDel := 0
 	term := false
@@ -220,12 +240,8 @@ func runCN(id int, c *cnCase, via string) cnLine {
 			time.Sleep(200 * time.Microsecond)
 		}
 	}
+	hung := false
 	request := func() {
-		defer func() {
-			if r := recover(); r != nil {
-				panicked = true
-			}
-		}()
 		mu.Lock()
 		dc := dconn
 		mu.Unlock()
@@ -233,10 +249,28 @@ func runCN(id int, c *cnCase, via string) cnLine {
 			return
 		}
 		lg.add(cnEvent{Ev: "cnreq"})
-		ch := dc.(diam.CloseNotifier).CloseNotify()
-		mu.Lock()
-		chans = append(chans, ch)
-		mu.Unlock()
+		done := make(chan (<-chan struct{}), 1)
+		go func() {
+			defer func() {
+				if r := recover(); r != nil {
+					mu.Lock()
+					panicked = true
+					mu.Unlock()
+					done <- nil
+				}
+			}()
+			done <- dc.(diam.CloseNotifier).CloseNotify()
+		}()
+		select {
+		case ch := <-done:
+			if ch != nil {
+				mu.Lock()
+				chans = append(chans, ch)
+				mu.Unlock()
+			}
+		case <-time.After(2 * time.Second):
+			hung = true // the call did not return (a deadlock inside the library)
+		}
 	}
 	var half []byte
 	for _, ev := range c.Sched {
@@ -273,8 +307,15 @@ func runCN(id int, c *cnCase, via string) cnLine {
 		case "cn":
 			if !term {
 				mc.WaitReaderBlocked(2 * time.Second)
+			} else if !exitSeen {
+				// the first request after a termination is made while the serve loop is in its exit path
+				select {
+				case <-lg.exitCh:
+				case <-time.After(20 * time.Millisecond):
+				}
+				exitSeen = true
 			}
-			if via == "server" {
+			if via == "server" || via == "server+timeout" {
 				mu.Lock()
 				have := dconn != nil
 				mu.Unlock()
@@ -330,6 +371,17 @@ func runCN(id int, c *cnCase, via string) cnLine {
 				b = append(b, cnGood(nextID+1, false)...)
 			}
 			mc.Feed(b)
+			mc.WaitClosed(3 * time.Second)
+			term = true
+		case "idle": // nothing is sent for longer than the server's ReadTimeout: the connection is given up
+			mc.WaitClosed(1500 * time.Millisecond)
+			term = true
+		case "eofd": // the last message arrives in the same Read call as the peer's close
+			nextID++
+			wantDel++
+			lg.add(cnEvent{Ev: "feed", K: "m"})
+			lg.add(cnEvent{Ev: "end", How: "eof"})
+			mc.FeedLastWithErr(cnGood(nextID, false), io.EOF)
 			mc.WaitClosed(3 * time.Second)
 			term = true
 		case "eof":
@@ -402,7 +454,7 @@ func runCN(id int, c *cnCase, via string) cnLine {
 			}
 		}
 		mu.Lock()
-		st := cnStep{Chans: []bool{}, Delivered: len(delivered), Panic: panicked, Held: []bool{}}
+		st := cnStep{Chans: []bool{}, Delivered: len(delivered), Panic: panicked, Held: []bool{}, Hung: hung, TClosed: mc.Closed()}
 		if held != nil {
 			st.Held = held
 		}
@@ -542,6 +594,9 @@ func CloseNotify(a Args) error {
 		if len(c.Sched) > 0 && (c.Sched[0] == "m" || c.Sched[0] == "mh" || c.Sched[0] == "mm") && id%2 == 0 {
 			via = "server"
 		}
+		if c.Via != "" {
+			via = c.Via
+		}
 		out.Emit(runCN(id, &c, via))
 		return nil
 	})
@@ -549,6 +604,11 @@ func CloseNotify(a Args) error {
 		return err
 	}
 	if a.Extra["watchdog"] != "no" {
+		// a server with ReadTimeout: an idle connection is closed, and only then do its channels fire
+		for _, sc := range [][]string{{"mh", "idle"}, {"mh", "m", "idle"}, {"m", "cn", "m", "idle"}, {"m", "idle", "cn"}, {"mm", "idle", "cn"}} {
+			id++
+			out.Emit(runCN(id, &cnCase{Sched: sc}, "server+timeout"))
+		}
 		for _, how := range []string{"eof", "rerr", "lclose", "x"} {
 			id++
 			out.Emit(runCNWatchdog(id, how))
